@@ -10,15 +10,15 @@ from mc import robotdrv as R
 
 PID = "C10"
 
-BASE_SRC = "class K_mbase:\n    inherited = will_reset_to('inh')\n\n"
+BASE_SRC = "class K_mbase:\n    inherited = will_reset_to('inh')\n    redecl = will_reset_to('base')\n    shadowed = will_reset_to('marker')\n\n"
 C0_SRC = "    flag = will_reset_to(0)\n    mark2 = will_reset_to('x')\n    other = 'keep'\n"
-C1_SRC = "    flag = will_reset_to(-1)\n    other = 'keep1'\n"
-ATTRS = [("c0", "flag", 0, True), ("c0", "mark2", "x", True), ("c0", "other", "keep", False), ("c1", "flag", -1, True), ("c1", "inherited", "inh", True), ("c1", "other", "keep1", False)]
+C1_SRC = "    flag = will_reset_to(-1)\n    other = 'keep1'\n    redecl = will_reset_to('derived')\n    shadowed = 'plain'\n"
+ATTRS = [("c0", "flag", 0, True), ("c0", "mark2", "x", True), ("c0", "other", "keep", False), ("c1", "flag", -1, True), ("c1", "inherited", "inh", True), ("c1", "other", "keep1", False), ("c1", "redecl", "derived", True), ("c1", "shadowed", "plain", False)]
 # writers: site -> list of (component, attribute)
 WRITERS = [
-    ("teleopPeriodic", [("c1", "flag"), ("c0", "mark2")]),
+    ("teleopPeriodic", [("c1", "flag"), ("c0", "mark2"), ("c1", "redecl")]),
     ("mode.on_iteration", [("c0", "flag"), ("c1", "inherited")]),
-    ("c0.execute", [("c1", "flag"), ("c1", "other")]),
+    ("c0.execute", [("c1", "flag"), ("c1", "other"), ("c1", "shadowed")]),
     ("c1.execute", [("c0", "flag"), ("c0", "other"), ("c1", "inherited")]),
 ]
 
